@@ -2,6 +2,7 @@
 native replay, known findings, in-memory mutants (vacuity guard), evidence files."""
 import glob
 import hashlib
+import os as os  # noqa
 import json
 import multiprocessing as mp
 import os
@@ -95,6 +96,11 @@ def build_native():
                        stdout=subprocess.PIPE, stderr=subprocess.STDOUT)
     if r.returncode != 0:
         raise Inconclusive('native build failed:\n' + r.stdout.decode()[-3000:])
+    # the real CLI binary, from the current working tree (used for end-to-end replay)
+    r = subprocess.run(['cargo', 'build', '--quiet', '--bin', 'cargo-tauri-typegen'], cwd=REPO, env=env,
+                       stdout=subprocess.PIPE, stderr=subprocess.STDOUT)
+    if r.returncode != 0:
+        raise Inconclusive('CLI build failed:\n' + r.stdout.decode()[-3000:])
 
 
 def build_astdump():
